@@ -58,7 +58,8 @@ REQUIRED = ["tables_exhaustive", "tables_random", "is_single_root_checked", "has
             "is_sorted_checked", "is_bifurcate_checked", "cyclic_tables", "forest_tables",
             "dsu_histories", "dsu_pair_queries", "dsu_invariant_evaluations", "repair_off",
             "repair_somas", "repair_nearest", "repair_table_functions", "repair_three_or_more_roots",
-            "step_budget_calls", "frames_with_other_index", "rejected_calls_before_has_cyclic"]
+            "step_budget_calls", "frames_with_other_index", "rejected_calls_before_has_cyclic",
+            "tables_regular_families", "checkers_on_int32_arrays"]
 FLOOR = {"quick": 1200, "thorough": 100000}
 SHARDS = {"quick": 8, "thorough": 16}
 TIMEOUT = {"quick": 300, "thorough": 3000}
@@ -181,6 +182,21 @@ def check_table(ctx, case):
              lambda: su.is_bifurcate((ids.tolist(), pids.tolist()), exclude_root=False),
              all(v <= 2 for v in cnt.values()))
         call("has_cyclic", lambda: su.has_cyclic((ids.tolist(), pids.tolist())), cyc)
+    if perm:
+        # the arrays a Tree hands out (int32, the library's own width): read, never written
+        i32, p32 = ids.astype(np.int32), pids.astype(np.int32)
+        call("has_cyclic", lambda: su.has_cyclic((i32, p32)), cyc)
+        if positional:
+            call("is_sorted", lambda: su.is_sorted((i32, p32)), bool(np.all(pids < ids)))
+        call("is_bifurcate(exclude_root=False)",
+             lambda: su.is_bifurcate((i32, p32), exclude_root=False),
+             all(v <= 2 for v in cnt.values()))
+        call("has_cyclic", lambda: su.has_cyclic((i32, p32)), cyc)
+        ctx.count("checkers_on_int32_arrays")
+        if not (np.array_equal(i32, ids) and np.array_equal(p32, pids)):
+            return ctx.violation("checker-mutates-input",
+                                 f"a checker wrote into the (id, pid) arrays it was given: pids "
+                                 f"{pids.tolist()[:10]} became {p32.tolist()[:10]}", case)
     call("is_bifurcate(exclude_root=False)",
          lambda: su.is_bifurcate((ids, pids), exclude_root=False),
          all(v <= 2 for v in cnt.values()))
@@ -578,6 +594,29 @@ def run(ctx):
             ctx.case(case, nontrivial=n >= 2, klass=f"exhaustive/n={n}")
             ctx.count("tables_exhaustive")
             execute(ctx, case)
+    # regular families random tables practically never produce: root-less rings of every length
+    # in both orientations (parent = next row / previous row), rings with tails, long chains
+    # listed tip first, stars around the last row, two rings
+    fam = []
+    for n in range(2, 41 if ctx.quick else 130):
+        fwd = [(i + 1) % n for i in range(n)]
+        bwd = [(i - 1) % n for i in range(n)]
+        fam += [("ring-next", fwd), ("ring-prev", bwd),
+                ("chain-tip-first", [i + 1 for i in range(n - 1)] + [-1]),
+                ("star-last", [n - 1] * (n - 1) + [-1])]
+        if n >= 5:
+            t_ = n // 2
+            fam.append(("ring-with-tail", [(i + 1) % t_ for i in range(t_)]
+                        + [i - 1 for i in range(t_, n)]))
+            fam.append(("two-rings", [(i + 1) % t_ for i in range(t_)]
+                        + [t_ + (i + 1 - t_) % (n - t_) for i in range(t_, n)]))
+    for j, (name, pids_) in enumerate(fam):
+        if j % ctx.nshards != ctx.shard:
+            continue
+        case = {"kind": "table", "ids": list(range(len(pids_))), "pids": [int(v) for v in pids_]}
+        ctx.case(case, klass="family/" + name)
+        ctx.count("tables_regular_families")
+        execute(ctx, case)
     for _ in range(ctx.scale(1600, 60000)):
         ids, pids = random_table(rng)
         case = {"kind": "table", "ids": ids, "pids": pids}
